@@ -203,9 +203,21 @@ REPL2 = st.sampled_from(['zero', 'zero', 'zero', 'ff', 'ff', 'random', 'one', 'm
 VALUE_PAIRS = st.one_of(st.sampled_from([('zero', 'ff'), ('ff', 'zero'), ('zero', 'random'), ('random', 'zero'), ('ff', 'ff'), ('zero', 'zero'), ('one', 'ff'), ('ff', 'minus1')]),
                         st.tuples(REPL2, REPL2))
 PAIR = st.builds(lambda k, i, n, vp, rnd: ('pair', k, i, n, vp[0], vp[1], rnd), st.integers(0, 9999), st.integers(0, 99999), st.integers(0, 99999), VALUE_PAIRS, st.integers(0, 0xffffffff))
+# 'reseal': after the other patches, the tag (CRC and checksum) of every UDF descriptor that holds a patched byte is made
+# valid again - what an adversary would do, and what a parser that trusts a valid tag is then exposed to
+RESEALED = st.lists(PATCH, min_size=1, max_size=2).map(lambda l: l + [('reseal',)])
+# pointers that take the value of another pointer of the same kind (or of a near-by value), with the descriptor resealed: the
+# recipe for self-referencing structures (a directory entry that leads back to an ancestor, a continuation area that points
+# at itself, a path table entry whose directory is its own parent ...)
+POINTER_KINDS = ['fid-icb-lbn', 'fid-icb-lbn', 'fid-icb-lbn', 'ad-position', 'fsd-root-lbn', 'lvd-fsd-lbn', 'extent', 'extent', 'ce-block', 'cl-location', 'pl-location',
+                 'pt-extent', 'pt-parent', 'eltorito-load-rba', 'eltorito-catalog-pointer', 'anchor-main-location', 'lvd-integrity-location']
+POINTER = st.builds(lambda k, i, r, rnd: [('nfield', k, i, r, rnd), ('reseal',)], st.sampled_from(POINTER_KINDS), st.integers(0, 99999),
+                    st.sampled_from(['other', 'other', 'other', 'minus1', 'plus1', 'zero']), st.integers(0, 0xffffffff))
 CASE = st.one_of(
     st.tuples(st.integers(0, NBASES + NEXTRA - 1), st.lists(PATCH, min_size=1, max_size=3)),
     st.tuples(st.integers(0, NBASES + NEXTRA - 1), st.lists(PATCH, min_size=1, max_size=3)),
+    st.tuples(st.integers(0, NBASES + NEXTRA - 1), RESEALED),
+    st.tuples(st.integers(0, 9999), POINTER),
     st.tuples(st.integers(0, 9999), st.tuples(PAIR).map(list)),
     st.tuples(st.integers(0, 9999), st.tuples(PAIR).map(list)),
 )
@@ -215,6 +227,9 @@ _GLOBAL_KINDS = None
 def resolve_base(bi, patches, bl):
     """Base image index of a case: drawn directly, or - for 'pair' cases - one of the bases that have the drawn field kind."""
     global _GLOBAL_KINDS
+    if patches and patches[0][0] == 'nfield':
+        have = [i for i, b in enumerate(bl) if any(k == patches[0][1] for k, _ in b['kinds'])]
+        return have[bi % len(have)] if have else bi % len(bl)
     if patches and patches[0][0] == 'pair':
         if _GLOBAL_KINDS is None:
             g = {}
@@ -236,6 +251,12 @@ def apply_patches(base, patches):
         kind = p[0]
         if kind == 'kfield' and fields:
             insts = base['kinds'][p[1] % len(base['kinds'])][1]
+            p = ('field', fields.index(insts[p[2] % len(insts)])) + tuple(p[3:])
+            kind = 'field'
+        if kind == 'nfield' and fields:
+            insts = dict(base['kinds']).get(p[1])
+            if not insts:
+                continue
             p = ('field', fields.index(insts[p[2] % len(insts)])) + tuple(p[3:])
             kind = 'field'
         if kind == 'pair' and fields:
@@ -322,7 +343,34 @@ def apply_patches(base, patches):
                 img[off] ^= p[2]
                 touched.append(off)
                 desc.append(('flip',))
+    if any(p[0] == 'reseal' for p in patches):
+        tags = sorted(f[0] for f in fields if f[2] == 'tag-ident')
+        done = set()
+        for x in touched:
+            import bisect
+            k = bisect.bisect_right(tags, x) - 1
+            if k < 0:
+                continue
+            t = tags[k]
+            if t in done or x - t >= 2048 or t + 16 > len(img):
+                continue
+            done.add(t)
+            crc_len = struct.unpack_from('<H', img, t + 10)[0]
+            if x >= t + 16 and x < t + 16 + crc_len and t + 16 + crc_len <= len(img):
+                struct.pack_into('<H', img, t + 8, _crc_ccitt(bytes(img[t + 16:t + 16 + crc_len])))
+            img[t + 4] = 0
+            img[t + 4] = sum(img[t:t + 16]) & 0xff
+            desc.append(('reseal',))
     return bytes(img), touched, desc
+
+
+def _crc_ccitt(data):
+    crc = 0
+    for b in data:
+        crc ^= b << 8
+        for _ in range(8):
+            crc = ((crc << 1) ^ 0x1021) & 0xffff if crc & 0x8000 else (crc << 1) & 0xffff
+    return crc
 
 
 def newval(v, rk, rnd, n, fields, fk, img, width):
